@@ -188,11 +188,14 @@ CLAIMED = {
          'as a kernel-evaluated witness and a forced-digest run on the real code show); soundness of verification for every triple: success implies '
          'a 65-byte signature with header 27..35 whose (r, s) is ECDSA-valid for this message\'s digest under a key whose P2PKH address is the given '
          'one; anything else is false or raises. Agreement of acceptance with a libsecp256k1-based recovery on forged triples (both directions) is by the '
-         'correspondence run (Spec recovery in Lean + coincurve as cross-oracle). add_magic_prefix is re-translated on every run and proved equal to '
-         'the model prefix for every message (tier T).',
+         'correspondence run (Spec recovery in Lean + coincurve as cross-oracle). Tier T: add_magic_prefix is re-translated on every run and proved equal to '
+         'the model prefix for every message; PublicKey.verify and the recovery branch of PublicKey.__init__ (empty-message and length checks, header window 27..34, '
+         'recovery id (h-27)%4, the digest handed to python-ecdsa, the pick among the recovered keys) are translated as well (python-ecdsa recovery / verify_digest and base64 as '
+         'parameters): the digest is the standard one over the signature without its header, everything outside the window or not 65 bytes long is refused, and under the stated '
+         'assumption on python-ecdsa\'s recovery the key held is the Spec\'s recovered key. sign_message / verify_message themselves are a hand model tied by the correspondence run.',
          NOTE_COMMON + 'python-ecdsa signing (its (r, s) is an input of the model), verify_digest and sympy sqrt_mod are parameters modelled by their '
          'specification; completeness of verification (every libsecp256k1-accepted triple is accepted) is correspondence only (partial).',
-         'Lean 4 proof (hand model, third-party signer as parameter) + differential correspondence', '6/C14'),
+         'Lean 4 proof (hand model of sign/verify_message; prefix, verify and key recovery over translated source; third-party ECDSA as parameter) + differential correspondence', '6/C14'),
 }
 REASONS_PENDING = 'check under construction in this session (DESIGN.md section 9 build order); will be claimed once its Lean theorems are proved and its correspondence run exists'
 
